@@ -133,6 +133,7 @@ func (st *c10state) check(step int, a act) error {
 func modN(v *big.Int) *big.Int { return v.Mod(v, ref.N) }
 
 func runC10(c caseC10, o *gen.Obs) error {
+	hostileCaller()
 	st := &c10state{}
 	// initial pool: O, G, 2G (Z != 1), -G; 0, 1, n-1, 2^255 + 12345
 	g := ref.G()
